@@ -13,7 +13,7 @@ class C20(Plugin):
     shard = 300
     impl_jobs = 4
     design_ref = "DESIGN.md 4/C20, 3.7"
-    rule = ("case = (HTTP version, Host header value(s), request URI, TLS info: none / no SNI / SNI string) through the public "
+    rule = ("case = (HTTP version, Host header value(s), request URI, TLS info: none / no SNI / SNI string, validated flag already set on arrival or not) through the public "
             "ValidateSNI layer around a recording inner service; observed: forwarded (with the validated flag the inner "
             "service saw) or the rejection kind; non-trivial = TLS info present and a host named; distinct = distinct tuples")
     trusted = [
@@ -45,6 +45,9 @@ class C20(Plugin):
             cases = full[:5000]
         else:
             cases = full
+        # the TLS info arrives with its validated flag already set (stacked layers, re-dispatched extensions)
+        pm = [c + [1] for c in (full[5000:6200] if tier == "quick" else full[::3]) if c[3] != "none"]
+        cases = cases + pm
         # two Host headers (first one counts), invalid host values
         for tls in tls_opts:
             cases.append(["11", ["example.com", "other.test"], "/", tls])
@@ -55,11 +58,11 @@ class C20(Plugin):
                        "exhaustive": tier != "quick"}
 
     def impl_line(self, c):
-        v, hosts, uri, tls = c
+        v, hosts, uri, tls = c[:4]
         hx = lambda s: s.encode().hex()
         h = "-" if not hosts else ("+" if len(hosts) > 1 else "") + ",".join(hx(x) for x in hosts)
         t = tls if not tls.startswith("sni:") else "sni:" + hx(tls[4:])
-        return f"{v} {h} {uri} {t}"
+        return f"{v} {h} {uri} {t} {c[4] if len(c) > 4 else 0}"
 
     def parse_obs(self, c, line):
         dec, res = line.split(" ;; ")
@@ -67,7 +70,8 @@ class C20(Plugin):
         return {"hdr": hd, "uri": ud, "sni": sd, "res": res}
 
     def terms(self, c, o):
-        v, hosts, uri, tls = c
+        v, hosts, uri, tls = c[:4]
+        pre = "true" if len(c) > 4 and c[4] else "false"
         if o["res"] == "BADREQ":
             return None
         d = lambda x: None if x in ("-", "!") else x
@@ -82,7 +86,7 @@ class C20(Plugin):
             t = "(Some None)"
         else:
             t = f"(Some (Some {cs(tls[4:])}))"
-        req = f"(mkSreq {'true' if v == '2' else 'false'} {ostr(hdr_raw)} {ostr(uri_raw)} {t})"
+        req = f"(mkSreq {'true' if v == '2' else 'false'} {ostr(hdr_raw)} {ostr(uri_raw)} {t} {pre})"
         case = f"mkCase {req} {ostr(d(o['hdr']))} {ostr(d(o['uri']))} {ostr(d(o['sni']) if tls.startswith('sni:') else None)}"
         r = {"FWD 0": "ORes (Forward false)", "FWD 1": "ORes (Forward true)", "REJ Invalid": "ORes RejectInvalid",
              "REJ Missing": "ORes RejectMissing"}.get(o["res"], "OBad")
@@ -103,16 +107,19 @@ class C20(Plugin):
         return obss, [idx[i] for i in mism], [idx[i] for i in monf]
 
     def shrinks(self, c):
-        v, hosts, uri, tls = c
+        v, hosts, uri, tls = c[:4]
+        x = c[4:]
+        if x and x[0]:
+            yield [v, hosts, uri, tls, 0]
         if len(hosts) > 1:
-            yield [v, hosts[:1], uri, tls]
+            yield [v, hosts[:1], uri, tls] + x
         if uri != "/":
-            yield [v, hosts, "/", tls]
+            yield [v, hosts, "/", tls] + x
         for h in hosts[:1]:
             if "@" in h:
-                yield [v, [h.split("@")[-1]], uri, tls]
+                yield [v, [h.split("@")[-1]], uri, tls] + x
             if ":" in h and not h.startswith("["):
-                yield [v, [h.split(":")[0]], uri, tls]
+                yield [v, [h.split(":")[0]], uri, tls] + x
 
     def nontrivial_key(self, c, o):
         if c[3] != "none" and (c[1] or "://" in c[2]):
@@ -120,7 +127,7 @@ class C20(Plugin):
         return None
 
     def histogram(self, cases, obss):
-        h = {"result": {}, "version": {}, "tls": {}}
+        h = {"result": {}, "version": {}, "tls": {}, "premarked": sum(1 for c in cases if len(c) > 4 and c[4])}
         for c, o in zip(cases, obss):
             h["result"][o["res"]] = h["result"].get(o["res"], 0) + 1
             h["version"][c[0]] = h["version"].get(c[0], 0) + 1
